@@ -208,7 +208,12 @@ func ReorderWire(t *sim.T, b []byte) ([]byte, string) {
 	}
 	var out []byte
 	desc := ""
-	switch t.Choose(4) {
+	switch t.Choose(5) {
+	case 4: // an unknown zero-valued field at the very end: the message's last byte is 0x00
+		out = append([]byte(nil), b...)
+		out = protowire.AppendTag(out, 1998, protowire.VarintType)
+		out = protowire.AppendVarint(out, 0)
+		desc = "unknown zero-valued field last (the file ends in a zero byte)"
 	case 0: // header (and every non-entity field) last
 		for _, f := range fields {
 			if f.num == 2 {
